@@ -1,5 +1,5 @@
 #!/usr/bin/env python3
-"""tools/seed_regression.py [--repo DIR] [--jobs N] [seed-name ...]
+"""tools/seed_regression.py [--repo DIR] [--first] [seed-name ...]
 Applies every stored seeded change (seeded/<name>/patch.diff) to the repository in turn, runs the checks listed in its
 meta.json `caught_by`, and reports whether at least one of them exits 1 with a VIOLATION line.  With --repo pointing at a
 scratch copy of /repo (e.g. $VP_RUN_REPO of `vp run --with-repo`), /repo itself is left alone: the copy of /verif this
@@ -7,6 +7,8 @@ script runs from then gets its replay crate re-pointed at that directory (never 
 import sys, os, json, subprocess, re
 HERE=os.path.dirname(os.path.dirname(os.path.abspath(__file__)))
 args=sys.argv[1:]; repo='/repo'
+first='--first' in args          # stop at the first check that reports the change
+if first: args.remove('--first')
 if '--repo' in args: i=args.index('--repo'); repo=args[i+1]; del args[i:i+2]
 names=args or sorted(os.listdir(os.path.join(HERE,'seeded')))
 env=dict(os.environ); env['VERIF_REPO']=repo
@@ -29,6 +31,7 @@ for n in names:
             r=sh([os.path.join(HERE,'check'),pid,'--tier','quick'],env=env,cwd=HERE)
             viol=bool(re.search(r'^VIOLATION property=',r.stdout,re.M))
             out.append('%s:rc=%d%s'%(pid,r.returncode,'' if (r.returncode==1)==viol else '?'))
+            if first and r.returncode==1: break
     finally:
         sh(['git','-C',repo,'checkout','--','.'])
     res[n]=' '.join(out)+('  CAUGHT' if any(':rc=1' in o for o in out) else '  MISSED')
